@@ -612,6 +612,11 @@ def fkFromPython : PyVal → Res PyVal
   | .datetime .. => .invalid
   | .date .. => .invalid
   | .time .. => .invalid
+  | .float (.lit t) =>                 -- (c408a4f) a fractional float (or nan / inf) is refused, never truncated
+    match floatClass t with
+    | .nonfinite => .invalid
+    | .fractional => .invalid
+    | _ => .unmodelled                 -- `int(<integral float>)` as an id: not interpreted
   | _ => .unmodelled
 
 /-- ForeignKeyValidator.from_python when the referenced class has `idType = str`: `str(value)` -/
